@@ -517,3 +517,5 @@ LEVEL_TEXT = ("Machine-checked Lean 4 theorems about an executable model of the 
 LEVEL_NOTE = ("WHOLE FILE (Props/C05File.lean): C05_file_plant / C05_file_plant_named — an item named VERS / WRAP / DLM / NULL (any case) inserted into a header-item section in which that mnemonic does not steer (NULL outside ~W, VERS/WRAP/DLM outside ~V; ~Curves excluded because an extra declared curve changes the assignment) leaves the steering values, the curves of every data window and every other section unchanged and adds exactly its own item to that section; tightness: NULL in ~W and WRAP in ~V do steer; C05_file_curves_excluded. The data rows are not part of this model (oracle on the real code only; data-path model belongs to C02/C07). Indented titles are "
               "modelled faithfully (the ~Other loop does not strip) but are outside the property's quantifier. VERS values the model cannot "
               "classify exactly (comma, exponent, > 15 digits) are answered 'unmodelled' and not compared.")
+
+RULE = RULE + ("; ALSO (fifth session): steering names planted in the OTHER steering section (NULL in ~V; VERS / WRAP / DLM in ~W) and read with both engines; ~Other text compared exactly (lines beginning with '#' are content); title spellings with an underscore for ~V / ~W; stream `disk-titles` (titles with characters outside ASCII, files in utf-8 / utf-8-sig / utf-16 read by path = the string read)")
